@@ -83,11 +83,20 @@ def gen_case(rng, tier):
 
 def stored_form(rng, form, base, content, mtime):
     if form == "tar":
-        members = [(base, content, mtime)]
+        # member path: short, longer than the 100-byte name field of a tar header (GNU @LongLink entry / pax `path=`
+        # record / ustar prefix split), or non-ASCII (pax record)
+        style = rng.choice(("short", "short", "long", "long", "non_ascii"))
+        if style == "long":
+            mname = "logs-" + "d" * 55 + "/" + "host-" + "e" * 60 + "/" + base
+        elif style == "non_ascii":
+            mname = "dir-é-日本/" + base
+        else:
+            mname = rng.choice(("", "var/log/")) + base
+        members = [(mname, content, mtime)]
         if rng.random() < 0.5:
             members.insert(rng.randrange(2), ("notes.nfo", b"not a log\n", mtime))
         fmt = rng.choice(("ustar", "gnu", "pax"))
-        return "c_arch.tar", world.to_tar(members, fmt), {"kind": "tar", "format": fmt, "members": len(members)}
+        return "c_arch.tar", world.to_tar(members, fmt), {"kind": "tar", "format": fmt, "members": len(members), "member_path": style}
     data, descr = world.random_container(rng, form, content, mtime=mtime, name=base)
     return base + world.SUFFIX[form], data, descr
 
